@@ -18,6 +18,7 @@ def run(rep, tier, seed, replay):
         # what repeating a body makes adjacent: every kind of token at either end of the body x bounds x neighbours
         exprs += [e for e in gen.rep_body_family() if e not in set(exprs)]
         exprs += [e for e in gen.sole_boundary_family() if e not in set(exprs)]
+        exprs += [e for e in gen.both_edges_family() if e not in set(exprs)]
         # three and four levels of nesting with an edge terminal at every level: the context each level hands down
         n4 = gen.nest3_family(4)
         exprs += [e for e in gen.nest3_family(3) + (random.Random(seed + 11).sample(n4, 2000) if tier == "quick" else n4) if e not in set(exprs)]
